@@ -459,7 +459,7 @@ HARNESSES = [
     assumptions=['integer timestamps (fractional timestamps: floats as reals are outside this lemma)']),
   H('C08_tick_step', quick=dict(timeout=280, shards=[('m_%s_x%d' % (m, x), 'mi == %d and maxint == %d' % (i, x)) for i, m in enumerate(METHODS) if m in ('sum', 'avg', 'count', 'p95', 'min') for x in range(3)],
                                 extra_pre=['p < 16', 'a < 16']),
-    thorough=dict(timeout=1500, shards=[('m_%s_x%d' % (m, x), 'mi == %d and maxint == %d' % (i, x)) for i, m in enumerate(METHODS) for x in range(4)]),
+    thorough=dict(timeout=900, shards=[('m_%s_x%d' % (m, x), 'mi == %d and maxint == %d' % (i, x)) for i, m in enumerate(METHODS) for x in range(4)]),
     covers=['emitted', 'quiet', 'trimmed', 'released'], replay='replay_tick_step', twin_pre=['mi == 0 and p < 32'],
     encodes=['carbon.aggregator.buffers:MetricBuffer.compute_value', 'carbon.aggregator.buffers:IntervalBuffer.mark_inactive',
              'carbon.aggregator.buffers:MetricBuffer.close', 'carbon.aggregator.rules:AGGREGATION_METHODS'],
